@@ -15,7 +15,7 @@ import os
 import re
 import vlib
 
-PROOF_MODULES = []
+PROOF_MODULES = ["C08/TableProofs.vo", "C08/GammaProofs.vo", "C08/ExactProofs.vo", "C08/CtorProofs.vo"]
 OBLIGATIONS = [
     "C08/P_trig_simplify_sound.v", "C08/P_ctor_sound.v", "C08/P_tab_value_sound.v",
     "C08/P_floor_ceiling_truncate_exact.v", "C08/P_floor_complex_refuted.v", "C08/P_sign_exact.v",
@@ -49,6 +49,8 @@ def translate(ctx):
 def build_own(ctx):
     """compile coq/C08/*.v (model, spec, proofs) when stale; a file that no longer compiles is a broken proof"""
     coq = vlib.COQ
+    if vlib.in_project(OWN_FILES[0]):
+        return True   # built by `make` through ctx.prove(PROOF_MODULES, ...)
     with vlib.Lock(os.path.join(vlib.WORK, "c08-coq.lock")):
         newest = max((os.path.getmtime(os.path.join(coq, d)) for d in SHARED_DEPS if os.path.exists(os.path.join(coq, d))), default=0)
         for f in OWN_FILES:
